@@ -212,15 +212,18 @@ pub fn gen_prog(rng: &mut Rng, idx: usize, n: usize, o: &GenOpts) -> String {
             }
             81..=86 => s.push_str(&format!(" q {} {}", pick(rng, pool), rng.below(cur_vars as u64))),
             87..=91 => s.push_str(&format!(" p {} {} {}", pick(rng, pool), rng.below(cur_vars as u64), pick(rng, pool))),
-            92..=94 => {
-                let k = rng.range(0, 4);
-                s.push_str(&format!(" A {k}"));
-                for _ in 0..k { s.push_str(&format!(" {}", pick(rng, pool))); }
-            }
-            95..=97 => {
-                let k = rng.range(0, 4);
-                s.push_str(&format!(" O {k}"));
-                for _ in 0..k { s.push_str(&format!(" {}", pick(rng, pool))); }
+            92..=97 => {
+                // list operations: usually short; one in four long (up to 12 elements, repeated
+                // entries and an entry together with its negation are then likely), and half of
+                // the long ones over the first entries of the pool only (mostly literals)
+                let long = rng.chance(1, 4);
+                let k = if long { rng.range(5, 12) } else { rng.range(0, 4) };
+                s.push_str(&format!(" {} {k}", if r <= 94 { "A" } else { "O" }));
+                let lits_only = long && rng.coin();
+                for _ in 0..k {
+                    let i = if lits_only { rng.below(pool.min(2 * cur_vars + 2) as u64) as usize } else { pick(rng, pool) };
+                    s.push_str(&format!(" {i}"));
+                }
             }
             _ => {
                 if new_left > 0 {
